@@ -312,6 +312,17 @@ let single_op hfn zh (t : ty) (n : node) (e : sexp) : string =
   | L [A "ix"] -> show_steps hfn (ix_iter t n (nat_of_int 1))
   | L (A kind :: args) when List.mem kind ["htr"; "ser"; "blen"; "len"; "elem"; "sel"] ->
     read_tree hfn kind t n (List.map (function A s -> s | _ -> failwith "bad arg") args)
+  | L [A "setsumm"; A i; A g; s] ->
+    (* the value written is a summary leaf: the result is the full write with that position
+       summarised afterwards *)
+    let (st, r) = tm_step zh (tm_init t n) (OSet (O, nh i, src_of s)) in
+    (match r with
+     | OK _ ->
+       let b = (List.hd st.m_handles).h_back in
+       (match summarize zh hfn b (nh g) with
+        | OK b' -> "OK_" ^ hb (root_of hfn b') ^ "_" ^ (match ser_node t b' with OK bs -> hb bs | Err -> "ERR" | Panic -> "PANIC")
+        | Err -> "ERR" | Panic -> "PANIC")
+     | Err -> "ERR" | Panic -> "PANIC")
   | _ ->
     let o = match e with
       | L [A "set"; A i; s] -> OSet (O, nh i, src_of s)
